@@ -30,6 +30,7 @@ type dataset struct {
 	key   string
 	akey  string // auxiliary collection holding GET areas
 	aids  []string
+	aobjs map[string]geo.Obj
 	objs  map[string]geo.Obj
 	log   [][]string
 	reg   geo.Region
@@ -323,6 +324,7 @@ func (w *worker) build(d *dataset, rng *rand.Rand, thorough bool) bool {
 		}
 		if !r.IsErr() {
 			d.aids = append(d.aids, aid)
+			d.aobjs[aid] = o
 		}
 	}
 	return true
@@ -331,8 +333,9 @@ func (w *worker) build(d *dataset, rng *rand.Rand, thorough bool) bool {
 // ---- query areas
 
 type area struct {
-	kind string
-	args []string // e.g. ["BOUNDS", ...]
+	kind    string
+	args    []string // e.g. ["BOUNDS", ...]
+	hasLine bool     // the area contains a LineString somewhere
 }
 
 func tileOf(lat, lon float64, z int) (x, y int) {
@@ -453,7 +456,7 @@ func (d *dataset) rectArea(rng *rand.Rand, kinds []string) area {
 		}
 		a, c = math.Max(a, -90), math.Min(c, 90)
 		b, e = math.Max(b, -180), math.Min(e, 180)
-		return area{"BOUNDS", []string{"BOUNDS", geo.F(a), geo.F(b), geo.F(c), geo.F(e)}}
+		return area{kind: "BOUNDS", args: []string{"BOUNDS", geo.F(a), geo.F(b), geo.F(c), geo.F(e)}}
 	case "TILE":
 		la, lo := d.anchor(rng)
 		z := rng.Intn(24)
@@ -461,7 +464,7 @@ func (d *dataset) rectArea(rng *rand.Rand, kinds []string) area {
 			z = rng.Intn(8)
 		}
 		x, y := tileOf(la, lo, z)
-		return area{"TILE", []string{"TILE", strconv.Itoa(x), strconv.Itoa(y), strconv.Itoa(z)}}
+		return area{kind: "TILE", args: []string{"TILE", strconv.Itoa(x), strconv.Itoa(y), strconv.Itoa(z)}}
 	case "QUADKEY":
 		la, lo := d.anchor(rng)
 		z := 1 + rng.Intn(23)
@@ -469,14 +472,14 @@ func (d *dataset) rectArea(rng *rand.Rand, kinds []string) area {
 			z = 1 + rng.Intn(7)
 		}
 		x, y := tileOf(la, lo, z)
-		return area{"QUADKEY", []string{"QUADKEY", quadkey(x, y, z)}}
+		return area{kind: "QUADKEY", args: []string{"QUADKEY", quadkey(x, y, z)}}
 	default: // HASH
 		la, lo := d.anchor(rng)
 		n := 1 + rng.Intn(12)
 		if d.reg.Spread < 0 {
 			n = 1 + rng.Intn(3)
 		}
-		return area{"HASH", []string{"HASH", geohash(la, lo, n)}}
+		return area{kind: "HASH", args: []string{"HASH", geohash(la, lo, n)}}
 	}
 }
 
@@ -503,7 +506,7 @@ func (d *dataset) genArea(rng *rand.Rand) area {
 			}
 			m = sp * 111e3 * rng.Float64() * 2
 		}
-		return area{"CIRCLE", []string{"CIRCLE", geo.F(la), geo.F(lo), geo.F(m)}}
+		return area{kind: "CIRCLE", args: []string{"CIRCLE", geo.F(la), geo.F(lo), geo.F(m)}}
 	case x < 54: // SECTOR (finite arguments only: non-finite ones wedge the server, D14)
 		la, lo := d.anchor(rng)
 		sp := d.reg.Spread
@@ -519,13 +522,14 @@ func (d *dataset) genArea(rng *rand.Rand) area {
 				b2 += 10
 			}
 		}
-		return area{"SECTOR", []string{"SECTOR", geo.F(la), geo.F(lo), geo.F(m), geo.F(b1), geo.F(b2)}}
+		return area{kind: "SECTOR", args: []string{"SECTOR", geo.F(la), geo.F(lo), geo.F(m), geo.F(b1), geo.F(b2)}}
 	case x < 60: // POINT
 		la, lo := d.anchor(rng)
-		return area{"POINT", []string{"POINT", geo.F(la), geo.F(lo)}}
+		return area{kind: "POINT", args: []string{"POINT", geo.F(la), geo.F(lo)}}
 	case x < 72: // GET
 		if rng.Intn(2) == 0 && len(d.aids) > 0 {
-			return area{"GET", []string{"GET", d.akey, d.aids[rng.Intn(len(d.aids))]}}
+			aid := d.aids[rng.Intn(len(d.aids))]
+			return area{"GET", []string{"GET", d.akey, aid}, strings.Contains(d.aobjs[aid].JSON, "LineString")}
 		}
 		ids := sortedIDs(d.objs)
 		var cand []string
@@ -535,13 +539,14 @@ func (d *dataset) genArea(rng *rand.Rand) area {
 			}
 		}
 		if len(cand) > 0 {
-			return area{"GET", []string{"GET", d.key, cand[rng.Intn(len(cand))]}}
+			id := cand[rng.Intn(len(cand))]
+			return area{"GET", []string{"GET", d.key, id}, strings.Contains(d.objs[id].JSON, "LineString")}
 		}
 		return d.rectArea(rng, rectKinds)
 	default: // OBJECT
 		kind := []string{"polygon", "concave", "concave", "holed", "holed", "multipolygon", "line", "multiline", "multipoint", "feature", "collection", "fcollection"}[rng.Intn(12)]
 		o := d.agen.Object(kind)
-		return area{"OBJECT:" + kind, []string{"OBJECT", o.JSON}}
+		return area{"OBJECT:" + kind, []string{"OBJECT", o.JSON}, strings.Contains(o.JSON, "LineString")}
 	}
 }
 
@@ -637,7 +642,7 @@ func (w *worker) runDataset(idx int) {
 	}
 	reg := geo.RandomRegion(rng)
 	gen := &geo.Gen{Rng: rng, Reg: reg}
-	d := &dataset{idx: idx, key: fmt.Sprintf("c02_%d", idx), akey: fmt.Sprintf("c02a_%d", idx), objs: map[string]geo.Obj{}, reg: reg, gen: gen}
+	d := &dataset{idx: idx, key: fmt.Sprintf("c02_%d", idx), akey: fmt.Sprintf("c02a_%d", idx), objs: map[string]geo.Obj{}, aobjs: map[string]geo.Obj{}, reg: reg, gen: gen}
 	d.agen = &geo.Gen{Rng: rng, Reg: reg, NoPool: true}
 	w.cur = d
 	if !w.build(d, rng, ctx.Thorough()) {
@@ -689,6 +694,14 @@ func (w *worker) runDataset(idx int) {
 			cmd = "INTERSECTS"
 		}
 		a := d.genArea(rng)
+		if a.hasLine && cmd == "WITHIN" {
+			// WITHIN a line area runs geometry.Line.ContainsLine on every stored line, which never
+			// returns for common pairs (shared segment then a turn at a vertex, back-tracking or
+			// zero-length segments): the server wedges (separate finding). Line areas are therefore
+			// only queried with INTERSECTS.
+			cmd = "INTERSECTS"
+			ctx.Count("within_line_area_avoided", 1)
+		}
 		label := a.kind
 		qargs := append([]string{}, a.args...)
 		targs := a.args // area as TEST sees it
@@ -898,7 +911,7 @@ func Run(ctx *core.Ctx) {
 		"SECTOR/CIRCLE arguments finite (non-finite SECTOR arguments wedge the server: separate finding D14); WITHIN key GEO not used (D13)",
 		"the oracle is tile38's own index-free predicate, as the property is stated: the geometry predicates themselves are not judged",
 		"a CLIPBY query whose area TEST reports as disjoint from the clip rectangle is skipped (no index-free clipped area exists)",
-		"generated lines never repeat a consecutive vertex and CLIPBY is not applied to areas containing lines: geometry.Line.ContainsLine loops forever when the inner line follows a segment of the outer one and leaves it at a vertex, or when the outer line has a zero-length segment (TEST and search alike; separate finding, the server wedges)",
+		"areas containing a LineString are queried with INTERSECTS only and never with CLIPBY, and generated lines never repeat a consecutive vertex: geometry.Line.ContainsLine loops forever for common line pairs (inner line follows a segment of the outer one and turns at a vertex; back-tracking or zero-length segments in the outer line), for TEST and search alike, and the server wedges (separate finding)",
 		"i/o errors, timeouts and server deaths are inconclusive here, not violations of C02",
 	}
 	ctx.MinDistinct = 20
